@@ -25,6 +25,7 @@ UpTo(cmds, n) == UNION {Hists(cmds, k) : k \in 1..n}
 Corpus == CASE Layer = "SCRIPT3" -> UpTo(ScriptCmds, 3) [] Layer = "SCRIPT4" -> Hists(ScriptCmds, 4)
             [] Layer = "SOLVER3" -> UpTo(SolverCmds, 3) [] Layer = "SOLVER4" -> Hists(SolverCmds, 4)
             [] Layer = "SOLVER5" -> Hists(SolverCmds, 5)
+            [] Layer = "SLS3" -> UpTo(SlsCmds, 3) [] Layer = "SLS4" -> Hists(SlsCmds, 4)
 
 VARIABLE done
 Init == done = FALSE /\ LET c == SetToSeq(Corpus)
